@@ -108,6 +108,11 @@ def judge(ctx, scheme, kind, res, valid, wit, optional=False, produced=False, de
         return False
     accepted = res[0] == "ok"
     ctx.count(("lib_accepted:" if accepted else "lib_rejected:") + scheme)
+    if produced and valid is not True:
+        # (ii) second half: what sign() returned must be valid for the standard, whatever verify() says about it
+        ctx.check(False, "complete:%s:produced-signature-not-valid-per-standard" % ks,
+                  "the signature returned by sign() is not a valid signature under the matching public key for the model",
+                  lambda: dict(_w(wit), candidate=kind, library_verify="accepted" if accepted else repr(res[1])[:120]))
     if valid is False:
         ctx.count("model_invalid:" + scheme)
         return ctx.check(not accepted, "sound:%s:invalid-accepted:%s" % (ks, kind),
